@@ -77,6 +77,17 @@ def nonce_monitor(case, log, ctx, seen=None):
                         "one clock second and repeat a nonce" % (e, rec["t"] - last_emit[e], si[e]), {"case": case, "at": at})
             return seen
         last_emit[e] = rec["t"]
+        if p.get("late") and p["late"].get("same_bytes_as_this"):
+            ctx.count("late-encode-equals-the-next-datagram (same plaintext, harmless)")
+        elif p.get("late"):
+            lt = p["late"]
+            ctx.failure("nonce-reuse" if lt.get("same_nonce_as_this") else "packet-changed-after-build",
+                        "%s: emission %s, encoded after the next packet was built (as TwistedServer.sendPackets does: the Packet objects are "
+                        "encoded on the reactor thread), no longer gives the datagram it gave when it was built: nonce then %s, nonce now %s%s" %
+                        (rec["e"], lt.get("k"), lt.get("nonce_then"), lt.get("nonce_late") or lt.get("err"),
+                         " = the nonce of emission %d, whose plaintext differs: two datagrams sealed under one (key, nonce)" % p["k"]
+                         if lt.get("same_nonce_as_this") else ""), {"case": case, "at": at})
+            return seen
         if p["sealed"]:
             k = (p["key"], p["nonce"])
             if k in seen:
